@@ -20,8 +20,10 @@ void __real_MT_DVectorMatrixDotProduct(matrix *m, dvector *v, dvector *p);
 void __real_MT_MatrixDVectorDotProduct(matrix *m, dvector *v, dvector *p);
 void __wrap_GetNProcessor(size_t *online, size_t *max) { if (online) *online = (size_t)H_NPROC; if (max) *max = (size_t)H_NPROC; }
 static long H_KERNEL_CALLS = 0;
-void __wrap_MT_DVectorMatrixDotProduct(matrix *m, dvector *v, dvector *p) { H_KERNEL_CALLS++; vx_tick(H_TICKKEY); __real_MT_DVectorMatrixDotProduct(m, v, p); }
-void __wrap_MT_MatrixDVectorDotProduct(matrix *m, dvector *v, dvector *p) { H_KERNEL_CALLS++; vx_tick(H_TICKKEY); __real_MT_MatrixDVectorDotProduct(m, v, p); }
+static uint64_t H_INPUT_HASH = 0;                /* set by the harness: a non-terminating fit is an observed outcome of THAT input */
+static void h_tick(void) { if (++H_KERNEL_CALLS >= vx_tick_ceiling) vx_outcome(H_INPUT_HASH ^ 0x6e6f6e7465726dULL); vx_tick(H_TICKKEY); }
+void __wrap_MT_DVectorMatrixDotProduct(matrix *m, dvector *v, dvector *p) { h_tick(); __real_MT_DVectorMatrixDotProduct(m, v, p); }
+void __wrap_MT_MatrixDVectorDotProduct(matrix *m, dvector *v, dvector *p) { h_tick(); __real_MT_MatrixDVectorDotProduct(m, v, p); }
 
 /* Thread seam.  The MT_ kernels create one pthread per "processor" for EVERY matrix-vector product
  * (2 per NIPALS iteration); a create+join costs 0.5-1 ms under ASan, which would limit the whole
@@ -134,6 +136,11 @@ static ld sin_angle_col(const matrix *A, int ka, const rmat *B, int kb, int *sig
   return s != s ? 1 : s;
 }
 
+/* The DOCUMENTED convergence thresholds (properties.jsonl C02: "PCACONVERGENCE 1e-10"; cpca.h at the pinned tree: 1e-18).
+ * The allowances are computed from these constants, not from the header of the tree under test, so that a loosened
+ * header is judged against the documented rule instead of moving the allowance with it. */
+#define DOC_PCACONVERGENCE  1e-10
+#define DOC_CPCACONVERGENCE 1e-18
 /* the documented NIPALS stopping rule |t_new - t_old|^2 / (n |t_new|^2) < conv  ==>  relative step delta */
 static double nipals_delta(int n, double conv) { return sqrt((double)n * conv); }
 /* DESIGN section 3 rule 2: direction allowance of component k (1-based) with eigenvalue ratio r < 1 */
